@@ -344,6 +344,11 @@ def run_case(case):
                                (f["kind"], f["base"], f["ext"], missing,
                                 " | ".join(l for l in report.splitlines() if f["base"] in l)[-200:]))
                         break
+                    if f["kind"] in BAD and names:
+                        labels.append("src:" + f["kind"])
+                        vio = ("batch.isolates", "unconvertible file %s%s (%s) was not skipped: "
+                               "outputs %r" % (f["base"], f["ext"], f["kind"], names))
+                        break
                     if f["kind"] in BAD and f["base"] + f["ext"] not in report:
                         vio = ("batch.isolates", "bad file %s%s is not named in the report" %
                                (f["base"], f["ext"]))
